@@ -58,6 +58,20 @@ CLAIMED = {
         note="Trusts JAX/XLA determinism on single-threaded CPU, jax.random, the replay model; cells where the library's SCF does not reach a fixed point are skipped and counted; 2rdm mode is not exercised.",
         design_ref="DESIGN.md section 5, C12",
     ),
+    "C14": dict(
+        name="lockstep",
+        technique="deterministic simulation: three systems (restricted, unrestricted, permuted/re-batched copy) driven in lock-step by one seeded random stream through generated operation histories, sampler entry points and complete driver runs on a simulated communicator; per-operation comparison of the recorded histories",
+        text=(
+            "Seeded exploration: a restricted-walker system (RHF trial), an unrestricted-walker system with equal spin blocks (UHF trial, same "
+            "orbitals) and a permuted / differently batched copy are driven by one random stream through generated histories of 8-30 "
+            "operations (step, step with a field tail on one walker, QR, local reconfiguration, measurement of overlap/force bias/energy, "
+            "permute, re-batch); after every operation weights, overlaps, walkers and the scalar shift of the three systems must agree "
+            "(1e-8 across storage formats, 1e-10 under permutation / batch count, shift equal = symmetric function). The same pair is "
+            "run through sampler entry points and complete driver.afqmc runs on 1-3 simulated ranks under independent schedules."
+        ),
+        note="Closed-shell, spin-independent Hamiltonians only (as the statement requires); local reconfiguration re-synchronises the permuted copy (order dependent by design); <= 8 walkers, 4 orbitals.",
+        design_ref="DESIGN.md section 5, C14",
+    ),
 }
 
 NOT_APPLICABLE = {
@@ -77,7 +91,7 @@ NOT_APPLICABLE = {
 # properties planned as simulation targets whose check is not built yet
 PENDING = {
     k: "planned simulation target (DESIGN.md section 5); its check is not built yet, so nothing is claimed for it in this commit"
-    for k in ["C04", "C05", "C09", "C10", "C11", "C14"]
+    for k in ["C04", "C05", "C09", "C10", "C11"]
 }
 
 
